@@ -54,10 +54,12 @@ DEPENDS = [
     (("StructuredGrid.to_canonical", "StructuredGrid.from_canonical", "StructuredGrid.get_transform_to"), ("C07", "C08", "C18")),
     # the components finam ships: what the scheduling proofs assume about IComponent.update is checked on them
     (("finam.components.",), ("C01", "C02", "C03", "C20")),
-    (("finam.adapters.time.", "finam.adapters.time_integration.", "finam.sdk.adapter.Adapter."), ("C01", "C06", "C09", "C10", "C11", "C12", "C13")),
+    (("finam.adapters.time.", "finam.adapters.time_integration.", "finam.sdk.adapter.Adapter."), ("C01", "C05", "C06", "C09", "C10", "C11", "C12", "C13")),
     # validation guards the premises of the data-flow properties (single consumer below a buffering adapter, connected inputs ...)
     (("finam.schedule._check_", "Composition._validate_composition"), ("C01", "C03", "C05", "C06", "C09", "C10", "C11", "C12", "C13", "C19", "C20")),
-    (("finam.tools.connect_helper.",), ("C04", "C05", "C06")),
+    (("finam.tools.connect_helper.",), ("C04", "C05", "C06", "C07")),
+    # geometry of a structured grid: what regridding and layout conversion take their coordinates from
+    (("StructuredGrid.cell_axes", "StructuredGrid.data_axes", "StructuredGrid.data_shape", "StructuredGrid.cell_count", "StructuredGrid.point_count"), ("C14", "C15", "C16")),
     (("finam.adapters.base.",), ("C05", "C07", "C08", "C09")),
     (("Composition.connect", "Composition._connect_components", "Composition._validate_composition"), ("C03", "C04", "C05", "C06", "C10", "C19")),
     (("Composition._finalize_components", "Composition._check_status", "finam.sdk.component.Component."), ("C03", "C10")),
